@@ -131,11 +131,11 @@ func DoPause(p int) {
 
 // Timeline parameters.
 type TLParams struct {
-	SizeMs  int64 // window size / slide / timeout scale used for deltas
-	OOOMs   int64
-	UnitMs  int64 // 1 or 1000: all timestamps are multiples of it
-	Groups  int   // 0 = no group column; else number of groups
-	MaxN    int
+	SizeMs   int64 // window size / slide / timeout scale used for deltas
+	OOOMs    int64
+	UnitMs   int64 // 1 or 1000: all timestamps are multiples of it
+	Groups   int   // 0 = no group column; else number of groups
+	MaxN     int
 	PreFirst bool // allow an on-time event earlier than the first event's aligned window
 }
 
